@@ -27,7 +27,7 @@ package main
 //   prov pos additionally: load = the provider hands out no ammo and blocks (a slow preload) until its context is done
 //   prov/agg ret additionally: ctxw = the context's error wrapped with pkg/errors (still the context's error)
 // output : res=<cls> canc=<0|1> lat=<fast|mid|slow|-> wait=<ok|hang> leak=<n> eng=<pool results Engine.Run consumed>
-//          engc=<0|1> sup=<pool results that were suppressed>
+//          (a failure marked `!` was read after the caller's cancel was complete) engc=<0|1> sup=<pool results that were suppressed>
 //          pK.main=<..> pK.aw=<trace> pK.guns=<created> pK.closes=<sorted Close counts of the created guns>
 //          pK.errs=<component errors the mocks of pool K actually returned, sorted>
 //          [cli=<what awaitPandoraTermination did>] and per real-gun pool pK.gcl / pK.icl / pK.srvopen (real.go)
@@ -356,12 +356,17 @@ type caseRt struct {
 	jit        *rand.Rand
 	jitMu      sync.Mutex
 	hk         *hookRt
+	doneMu     sync.Mutex
+	cancelDone time.Time
 }
 
 func (c *caseRt) doCancel() {
 	c.cancelOnce.Do(func() {
 		c.cancelAt.Store(time.Now().UnixNano())
 		c.cancel()
+		c.doneMu.Lock()
+		c.cancelDone = time.Now() // from here on every reader of ctx.Done() sees it closed
+		c.doneMu.Unlock()
 	})
 }
 
@@ -408,7 +413,7 @@ type poolRt struct {
 	errs map[string]bool // component errors the mocks of this pool have actually returned (or panicked with)
 
 	realNew  func() (core.Gun, error) // rg pools
-	gcl, icl bool
+	gcl, icl, gwu bool
 }
 
 // verr makes the error a mock component returns and records that it did
@@ -655,6 +660,7 @@ func (p *poolRt) newGun() (core.Gun, error) {
 		_, warm = inner.(warmup.WarmedUp)
 		p.mu.Lock()
 		p.gcl = closable
+		p.gwu = warm
 		p.icl = innerCloser(inner)
 		p.mu.Unlock()
 	}
@@ -1063,7 +1069,16 @@ func runCase(input string) string {
 		}
 		switch en.Message {
 		case "Pool awaited":
-			eng = append(eng, fmt.Sprintf("%s.%s", fieldStr(ctxf, "id"), errCls(fieldErr(ctxf))))
+			tok := fmt.Sprintf("%s.%s", fieldStr(ctxf, "id"), errCls(fieldErr(ctxf)))
+			// `!`: Engine.Run read this failure when the caller's cancel was already complete (the entry is logged
+			// after the receive, both times are readings of the process's monotonic clock): its non-blocking look at
+			// the context that follows must find it done
+			c.doneMu.Lock()
+			if fieldErr(ctxf) != nil && !c.cancelDone.IsZero() && en.Time.After(c.cancelDone) {
+				tok += "!"
+			}
+			c.doneMu.Unlock()
+			eng = append(eng, tok)
 		case "Engine run canceled":
 			engCanceled = true
 		case "Pool run result suppressed":
@@ -1134,7 +1149,7 @@ func runCase(input string) string {
 		fmt.Fprintf(&b, " p%d.guns=%d p%d.closes=%s p%d.errs=%s", i, len(cl), i, joinOrDash(cls), i, joinOrDash(es))
 		if p.spec.rg != "" {
 			// all real-gun pools of a case shoot at the same server: the open connections are reported with each
-			fmt.Fprintf(&b, " p%d.gcl=%d p%d.icl=%d p%d.srvopen=%d", i, b2i(p.gcl), i, b2i(p.icl), i, srvOpen)
+			fmt.Fprintf(&b, " p%d.gcl=%d p%d.gwu=%d p%d.icl=%d p%d.srvopen=%d", i, b2i(p.gcl), i, b2i(p.gwu), i, b2i(p.icl), i, srvOpen)
 		}
 	}
 	return b.String()
